@@ -63,6 +63,7 @@ elab "wp_step" : tactic => withMainContext do
 syntax "advf2" : tactic
 macro_rules
   | `(tactic| advf2) => `(tactic| first
+      | trivial
       | omega
       | (refine ⟨?_, ?_, ?_, ?_⟩ <;> first
           | omega
